@@ -17,3 +17,4 @@ CHECK_DEADLOCK FALSE
 INVARIANTS
   C11_AllSteps
   C11_ServiceCanMint
+  Compose
